@@ -38,10 +38,16 @@ def bv(v):
 
 def class_ops(hist):
     if not hist:
-        return [["init", c] for c in CLASS_INITS]
+        return [["init", c] for c in CLASS_INITS] + [["init", c, how] for c in CLASS_INITS[:5] for how in ("copy", "tagify")]
     ops = []
     for t in TOKENS:
         ops += [["add", t, False], ["add", t, True], ["remove", t], ["has", t]]
+    init = hist[0][1]
+    if not (isinstance(init, str) and ("\n" in init or "\r" in init)):
+        # HTML() tokens are not added onto a plain value whose tokens are separated by CR/LF: merging
+        # plain text into trusted markup must escape CR/LF (C03), after which whitespace-token
+        # membership is computed on markup - the statement is silent on that corner (DESIGN 5.2)
+        ops += [["add", ["H", "foo-x"], False], ["add", ["H", "bar"], True]]
     return ops
 
 
@@ -65,11 +71,16 @@ def class_step(hist):
         v = []
         if op[0] == "init":
             tag = Tag("div", "c", id="i") if op[1] is None else Tag("div", "c", {"class": bv(op[1])}, id="i")
+            if len(op) > 2:
+                import copy as _copy
+                tag = _copy.copy(tag) if op[2] == "copy" else tag.tagify()
             model = None if op[1] is None else (op[1][1] if isinstance(op[1], list) else op[1]).split()
         elif op[0] == "add":
             t, prepend = op[1], op[2]
             old = list(model or [])
-            r = tag.add_class(t, prepend=prepend)
+            tval = bv(t)
+            t = t[1] if isinstance(t, list) else t
+            r = tag.add_class(tval, prepend=prepend)
             if r is not tag:
                 v.append(("add_class:return", "add_class did not return the tag itself", {}))
             got = tokens_of(tag)
@@ -122,7 +133,11 @@ def class_step(hist):
                 viols = v
             else:
                 return {"key": None}
-    key = None if viols else ("cls", tuple(model) if model is not None else None)
+    # the canonical key includes the TYPE of the stored value (str / HTML): states that differ only
+    # in that do not have the same futures (e.g. split()/join() behave differently), so they must not
+    # be merged
+    key = None if viols else ("cls", type(tag.attrs.get("class")).__name__, type(tag.attrs).__name__,
+                              hist[0][2] if len(hist[0]) > 2 else "", tuple(model) if model is not None else None)
     if model is not None and len(model) > 7:
         key = None
     return {"key": key, "viol": viols, "nontrivial": len(hist) >= 3 and changed >= 1, "outcome": key}
@@ -131,7 +146,7 @@ def class_step(hist):
 # -------------------------------------------------------------------- styles
 def style_ops(hist):
     if not hist:
-        return [["init", s] for s in STYLE_INITS]
+        return [["init", s] for s in STYLE_INITS] + [["init", s, how] for s in STYLE_INITS for how in ("copy", "tagify")]
     ops = []
     for s in STYLE_OK + STYLE_BAD:
         ops += [["add", s, False], ["add", s, True]]
@@ -153,6 +168,9 @@ def style_step(hist):
         v = []
         if op[0] == "init":
             tag = Tag("div", "c", id="i") if op[1] is None else Tag("div", "c", id="i", style=op[1])
+            if len(op) > 2:
+                import copy as _copy
+                tag = _copy.copy(tag) if op[2] == "copy" else tag.tagify()
             model = None if op[1] is None else decls(op[1])
         else:
             s, prepend = op[1], op[2]
@@ -194,7 +212,8 @@ def style_step(hist):
                 viols = v
             else:
                 return {"key": None}
-    key = None if viols else ("sty", tuple(model) if model is not None else None)
+    key = None if viols else ("sty", type(tag.attrs.get("style")).__name__, type(tag.attrs).__name__,
+                              hist[0][2] if len(hist[0]) > 2 else "", tuple(model) if model is not None else None)
     return {"key": key, "viol": viols, "nontrivial": len(hist) >= 3 and eff >= 1, "outcome": key}
 
 
